@@ -342,6 +342,11 @@ void BasicPLApproximator<FuncCon>::ConsiderIntegrality() {
     auto x0=std::ceil(laPrm_.grDomOut.lbx);
     auto xN=std::floor(laPrm_.grDomOut.ubx);
     auto N = int(xN - x0 + 1);
+    if (N <= 0)                     // no integer point in the (clipped) domain
+      MP_INFEAS(fmt::format("PLApprox {}: "
+                            "no integer value in the argument domain [{}, {}]",
+                            GetConTypeName(),
+                            laPrm_.grDomOut.lbx, laPrm_.grDomOut.ubx));
     if (N <= laPrm_.plPoints.size()) {
       laPrm_.plPoints.clear();
       for (int k=0; k<N; ++k)       // use double + int
